@@ -18,6 +18,74 @@ pub fn run() -> Result<u64, String> {
         }
         n += 1;
     }
+    // the digest-preserving edits really preserve the digests they are named after (bitwise CRC-32 in both bit orders,
+    // Adler-32, djb2, 31-polynomial, sum, xor), and the FNV-1a search returns genuine collisions
+    {
+        fn crc_msb(d: &[u8]) -> u32 {
+            let mut c = 0xffff_ffffu32;
+            for &b in d {
+                c ^= (b as u32) << 24;
+                for _ in 0..8 {
+                    c = if c & 0x8000_0000 != 0 { (c << 1) ^ 0x04C1_1DB7 } else { c << 1 };
+                }
+            }
+            !c
+        }
+        fn crc_lsb(d: &[u8]) -> u32 {
+            let mut c = 0xffff_ffffu32;
+            for &b in d {
+                c ^= b as u32;
+                for _ in 0..8 {
+                    c = if c & 1 != 0 { (c >> 1) ^ 0xEDB8_8320 } else { c >> 1 };
+                }
+            }
+            !c
+        }
+        fn adler(d: &[u8]) -> u32 {
+            let (mut a, mut b) = (1u32, 0u32);
+            for &x in d {
+                a = (a + x as u32) % 65521;
+                b = (b + a) % 65521;
+            }
+            (b << 16) | a
+        }
+        let djb2 = |d: &[u8]| d.iter().fold(5381u32, |h, &x| h.wrapping_mul(33).wrapping_add(x as u32));
+        let poly31 = |d: &[u8]| d.iter().fold(0u32, |h, &x| h.wrapping_mul(31).wrapping_add(x as u32));
+        let sum = |d: &[u8]| d.iter().fold(0u32, |h, &x| h.wrapping_add(x as u32));
+        let mut kinds = [0u32; 6];
+        for seed in 0..600u32 {
+            let tape: Vec<u8> = (0..200u32).map(|i| (i.wrapping_mul(2246822519).wrapping_add(seed.wrapping_mul(3266489917)) >> 11) as u8).collect();
+            let kind = (tape[0] as usize * 6) >> 8; // Tape::below(6) of the first octet, see below
+            let mut t = Tape::new(&tape);
+            let orig: Vec<u8> = (0..(5 + seed as usize % 60)).map(|i| (i as u32 * 37 + seed * 11) as u8 | 2).map(|x| if x == 255 { 7 } else { x }).collect();
+            let mut e = orig.clone();
+            if !digest_preserving_edit(&mut t, &mut e) || e == orig {
+                continue;
+            }
+            // identify the edit by what it preserved: at least one of the digests must be unchanged
+            let same = [sum(&e) == sum(&orig), poly31(&e) == poly31(&orig), djb2(&e) == djb2(&orig), adler(&e) == adler(&orig), crc_msb(&e) == crc_msb(&orig), crc_lsb(&e) == crc_lsb(&orig)];
+            if !same.iter().any(|x| *x) {
+                return Err(format!("digest_preserving_edit (tape kind {}) preserved none of the digests: {:?} -> {:?}", kind, orig, e));
+            }
+            for (k, s) in same.iter().enumerate() {
+                if *s {
+                    kinds[k] += 1;
+                }
+            }
+            n += 1;
+        }
+        if kinds.iter().any(|k| *k == 0) {
+            return Err(format!("digest_preserving_edit never preserved one of the six digests: {:?}", kinds));
+        }
+        for seed in 1..4u64 {
+            let prefix = [0u8, 11];
+            let tail: Vec<u8> = (0..(8 + seed as usize)).map(|i| (i as u64 * 29 + seed) as u8).collect();
+            match fnv1a32_colliding_with(&prefix, &tail, seed.wrapping_mul(0x9E37_79B9_7F4A_7C15)) {
+                Some(c) if c != tail && c.len() == tail.len() && fnv1a32(fnv1a32(FNV32_BASIS, &prefix), &c) == fnv1a32(fnv1a32(FNV32_BASIS, &prefix), &tail) => n += 1,
+                other => return Err(format!("fnv1a32_colliding_with failed: {:?}", other)),
+            }
+        }
+    }
     // spec encode -> spec decode identity on generated values
     for seed in 0..400u32 {
         let tape: Vec<u8> = (0..1500u32).map(|i| (i.wrapping_mul(2654435761).wrapping_add(seed.wrapping_mul(40503)) >> 13) as u8).collect();
